@@ -12,9 +12,9 @@ IMPORTS = 'Require Import V.Base.MachineInt V.Model.Counters V.Oracle.C15Oracle.
 RULE = ('histories of allocate_opt / free / set_counter_value / clock-set / dump on a CountersManager over fresh buffers of nm x 512 and '
         'nv x 128 bytes (nm, nv independent). quick: every word of length <= 3 over a 10-letter alphabet {alloc plain, alloc with key, '
         'alloc via key callback, alloc label 381, alloc key 113, free lowest / highest live, set value, clock to deadline-1, clock to '
-        'deadline} on 4 slot-count pairs from 1..3 (thorough: length <= 4 on 8 pairs from 1..4), each ending in a dump; plus 72 random histories '
-        'of 10..200 operations on 1..16 slots (cool-down 0, 1, 10, 1000, 2^62; labels of 0, 1, 379..381 bytes or with a NUL; keys of '
-        '0, 8, 111..113 bytes by slice, by callback or both; values 0, 1, 2^63, 2^64-1; clock moved to just before / at / after a pending '
+        'deadline} on 4 slot-count pairs from 1..3 (thorough: length <= 4 on 8 pairs from 1..4), each ending in a dump; every word of length 4..5 over {alloc, free lowest, late write on the freed id, clock to deadline} on (1,1) and (2,2); plus 72 random histories '
+        'of 10..200 operations on 1..16 slots (cool-down 0, 1, 10, 1000, 2^62; labels of 0, 1, 379..381 bytes or with a NUL, 15 % multi-byte UTF-8 labels (2-, 3-, 4-byte characters) of 376..384 bytes or 380 characters; keys of '
+        '0, 8, 111..113 bytes by slice, by callback or both; values 0, 1, 2^63, 2^64-1, written through the manager or an UnsafeBufferPosition, one third of them late writes on freed ids during the cool-down; clock moved to just before / at / after a pending '
         'deadline, or backwards) with a dump every few operations and at the end. ids for free/set are taken from a reference '
         'simulation of the live set, so the history stays inside the API contract. At every dump all four reader accessors are called '
         'with ids i32::MIN, -1, 0..max(nm,nv)+1, i32::MAX, for_each and iter are collected, both look-ups of heartbeat_timestamp.rs '
@@ -22,7 +22,7 @@ RULE = ('histories of allocate_opt / free / set_counter_value / clock-set / dump
         'A history is non-trivial when it frees a counter and allocates again afterwards, or has an allocation that fails')
 ASSUMPTIONS = [
     'buffer capacities are exact multiples of the record lengths (nm x 512, nv x 128) and nm*512+512, nv*128+128 fit i32',
-    'free and set_counter_value are applied to live ids only (API contract, boolean predicate contract_step); '
+    'free is applied to live ids only, value writes to live ids or to freed ids not handed out again (API contract, boolean predicate contract_step); '
     'clock readings t and the cool-down satisfy 0 <= t, t + timeout < 2^63 (the source compares them as i64)',
     'a key callback writes at most MAX_KEY_LENGTH bytes through the view it is given',
     'single-threaded use of the manager (the reader is used from the same thread)',
@@ -70,13 +70,15 @@ class Sim:
         self.deadline[x] = self.now + self.timeout
 
 
-def op_alloc(type_id, kind, klen, kseed, klen2, kseed2, llen, lseed, nul):
-    return ['A', type_id, kind, klen, kseed, klen2, kseed2, llen, lseed, nul]
+def op_alloc(type_id, kind, klen, kseed, klen2, kseed2, llen, lseed, nul, w=1):
+    """llen is the label's length in BYTES; w > 1: UTF-8 label made of w-byte characters (no NUL)"""
+    return ['A', type_id, kind, klen, kseed, klen2, kseed2, llen, lseed, nul, w]
 
 
 def alloc_is_bad(o):
-    _, _t, kind, klen, _ks, _kl2, _ks2, llen, _ls, nul = o
-    return (0 <= nul < llen) or llen > 380 or kind == 'b' or (kind == 'o' and klen > 112)
+    _, _t, kind, klen, _ks, _kl2, _ks2, llen, _ls, nul = o[:10]
+    w = o[10] if len(o) > 10 else 1
+    return (w <= 1 and 0 <= nul < llen) or llen > 380 or kind == 'b' or (kind == 'o' and klen > 112)
 
 
 def apply_sim(sim, o):
@@ -92,6 +94,7 @@ def apply_sim(sim, o):
 # generators
 
 LETTERS = 'akcLKfgsxX'
+LETTERS_WIDE = LETTERS + 'Uuw'     # + UTF-8 label of 382 bytes / of 380 bytes, late write on a freed id
 
 
 def letter_op(sim, ch):
@@ -112,6 +115,12 @@ def letter_op(sim, ch):
         return ['F', max(sim.live)] if len(sim.live) > 1 else None
     if ch == 's':
         return ['S', min(sim.live), 7 + sim.now] if sim.live else None
+    if ch == 'U':       # 191 two-byte characters: 382 bytes, must be rejected
+        return op_alloc(6, 'n', 0, 0, 0, 0, 382, 3 + sim.hwm, -1, 2)
+    if ch == 'u':       # 126 three-byte characters + 2 ASCII: exactly 380 bytes, must be accepted
+        return op_alloc(7, 'n', 0, 0, 0, 0, 380, 3 + sim.hwm, -1, 3)
+    if ch == 'w':       # the former owner writes the value slot of a freed id during (or after) the cool-down
+        return ['S', sim.free[-1], 99 + sim.now, 'p'] if sim.free else None
     if ch == 'x':
         return ['C', sim.now + sim.timeout - 1] if sim.timeout > 0 else None
     if ch == 'X':
@@ -143,11 +152,18 @@ def random_history(rng, nm, nv, timeout, length, dump_every):
             llen = rng.choice([0, 1, 2, 3, 5, 17, rng.randrange(0, 40)]) if rng.random() < 0.9 else rng.choice([379, 380, rng.randrange(0, 381)])
             kind = rng.choice(['n', 'n', 'o', 'o', 'f'])
             klen = rng.choice([0, 1, 7, 8, 9, 16]) if rng.random() < 0.9 else rng.choice([111, 112, rng.randrange(0, 113)])
+            w = 1
+            if rng.random() < 0.15:     # multi-byte UTF-8, mostly just below / at the 380-BYTE limit
+                w = rng.choice([2, 3, 4])
+                llen = rng.choice([rng.randrange(0, 40), 376, 377, 378, 379, 380, 380])
             o = op_alloc(rng.choice([0, 1, 11, -1, 2 ** 31 - 1, -2 ** 31, rng.randrange(-1000, 1000)]),
-                         kind, klen if kind != 'n' else 0, rng.randrange(0, 50), 0, 0, llen, rng.randrange(0, 50), -1)
+                         kind, klen if kind != 'n' else 0, rng.randrange(0, 50), 0, 0, llen, rng.randrange(0, 50), -1, w)
         elif r < 0.50:
-            bad = rng.choice(['label', 'nul', 'key', 'both', 'both2'])
-            if bad == 'label':
+            bad = rng.choice(['label', 'utf8', 'nul', 'key', 'both', 'both2'])
+            if bad == 'utf8':   # more than 380 bytes in at most 380 characters
+                w = rng.choice([2, 3, 4])
+                o = op_alloc(1, rng.choice(['n', 'o', 'f']), 8, 1, 0, 0, rng.choice([381, 382, 383, 384, 400, 380 * w]), 2, -1, w)
+            elif bad == 'label':
                 o = op_alloc(1, rng.choice(['n', 'o', 'f']), 8, 1, 0, 0, rng.choice([381, 382, 500, 4000]), 2, -1)
             elif bad == 'nul':
                 ln = rng.randrange(1, 30)
@@ -160,8 +176,13 @@ def random_history(rng, nm, nv, timeout, length, dump_every):
                 o = op_alloc(1, 'b', 113, 5, 4, 6, 381, 5, -1)
         elif r < 0.70 and sim.live:
             o = ['F', rng.choice(sim.live)]
-        elif r < 0.80 and sim.live:
-            o = ['S', rng.choice(sim.live), rng.choice([0, 1, 2, I63 - 1, I63, U64 - 1, rng.randrange(0, U64)])]
+        elif r < 0.80 and (sim.live or sim.free):
+            # mostly a live counter; sometimes a late write of the former owner on a freed, not yet reused id
+            late = sim.free and (not sim.live or rng.random() < 0.35)
+            o = ['S', rng.choice(sim.free if late else sim.live),
+                 rng.choice([1, 2, I63 - 1, I63, U64 - 1, rng.randrange(1, U64)] + ([] if late else [0]))]
+            if rng.random() < 0.5:
+                o.append('p')
         elif r < 0.95:
             cands = [sim.now, sim.now + 1, max(0, sim.now - 1), 0, rng.randrange(0, 5000)]
             for x in sim.free[:4]:
@@ -187,7 +208,8 @@ def generate(rng, tier):
     cases = []
     # boundary histories first
     for nm, nv in [(1, 1), (2, 2), (1, 3), (3, 1)]:
-        for word in ['aaa', 'afXa', 'afxa', 'Laa', 'Kaa', 'aafXLa', 'aafXKa', 'aagXafa', 'kcskfXak']:
+        for word in ['aaa', 'afXa', 'afxa', 'Laa', 'Kaa', 'aafXLa', 'aafXKa', 'aagXafa', 'kcskfXak',
+                     'U', 'Ua', 'aU', 'u', 'ua', 'au', 'afwXa', 'asfwxwXa', 'aafwXUa', 'afXwa']:
             c = word_case(nm, nv, 10, word)
             if c:
                 c['kind'] = 'boundary'
@@ -196,9 +218,17 @@ def generate(rng, tier):
     maxlen = 4 if big else 3
     for nm, nv in pairs:
         for ln in range(1, maxlen + 1):
-            for word in itertools.product(LETTERS, repeat=ln):
+            for word in itertools.product(LETTERS_WIDE if (ln <= 2 or big) and (nm, nv) in ((1, 1), (2, 2)) else LETTERS, repeat=ln):
                 c = word_case(nm, nv, 10, word)
                 if c:
+                    cases.append(c)
+    # free / late write / cool-down / reuse: every word of length <= 5 (thorough: 6) over {alloc, free lowest, late write, clock to deadline}
+    for nm, nv in [(1, 1), (2, 2)]:
+        for ln in range(4, (6 if big else 5) + 1):
+            for word in itertools.product('afwX', repeat=ln):
+                c = word_case(nm, nv, 10, word)
+                if c:
+                    c['kind'] = 'reuse-word'
                     cases.append(c)
     nrand = 1500 if big else 72
     for i in range(nrand):
@@ -240,8 +270,10 @@ def _key(kind, klen, kseed, klen2, kseed2):
 
 def op_coq(o):
     if o[0] == 'A':
-        _, t, kind, klen, kseed, klen2, kseed2, llen, lseed, nul = o
-        return 'Alloc %s %s (mk_label %s %s %s)' % (z(t), _key(kind, klen, kseed, klen2, kseed2), z(llen), z(lseed), z(nul))
+        _, t, kind, klen, kseed, klen2, kseed2, llen, lseed, nul = o[:10]
+        w = o[10] if len(o) > 10 else 1
+        label = 'mk_label_u %s %s %s' % (z(llen), z(lseed), z(w)) if w > 1 else 'mk_label %s %s %s' % (z(llen), z(lseed), z(nul))
+        return 'Alloc %s %s (%s)' % (z(t), _key(kind, klen, kseed, klen2, kseed2), label)
     if o[0] == 'F':
         return 'Free %s' % z(o[1])
     if o[0] == 'S':
